@@ -321,7 +321,7 @@ def run(ctx):
         jobs.append((e, T, " ".join(S)))
     # malformed strings
     bad = ["( name CA", "name CA )", "name CA and", "and name CA", "name CA or or resid 1", "CA", "name ==", "== CA", "not",
-           "( )", "name CA && || resid 2", "3", "resid 1.2.3", "'CA' and protein", "not CA", "5 < 7", "protein and 5", "name =~"]
+           "( )", "name CA && || resid 2", "3", "1", "0", "1.0", "0.0", "resid 1.2.3", "'CA' and protein", "not CA", "5 < 7", "protein and 5", "name =~"]
     model = ctx.driver.query(["sel %s %s" % (";".join(T), atoms_enc) for _, T, _ in jobs]) if ctx.driver_ok else [None] * len(jobs)
     seen = {}
 
